@@ -336,7 +336,34 @@ def pool_orders(out, info):
     out.append("def poolNotifyAfterLock : Bool := %s" % ("true" if under else "false"))
     b = func_body(s, r"void thread_pool<T>::init_pause_jobs\(\)\s*\{", "init_pause_jobs")
     need(re.search(r"std::unique_lock<std::mutex> lk\(m_cv_m\);\s*\+\+m_paused_count;\s*m_cv\.wait\(lk\);\s*--m_paused_count;", b), "pause job body")
-    info["pool"] = dict(orders=orders, notify_after_lock=under)
+    # shape of the protocol the model `Fs.Pool4` transcribes (each fact is a step of the model's
+    # caller / worker programs; a change of the shape breaks `source_protocol_shape`)
+    def has(pat, body):
+        return bool(re.search(pat, body, flags=re.S))
+    pause_b = func_body(s, r"void thread_pool<T>::pause\(\)\s*\{", "pause")
+    stop_b = func_body(s, r"void thread_pool<T>::stop\(\)\s*\{", "stop")
+    runb_b = func_body(s, r"void thread_pool<T>::run_blocks\(.*?\)\s*\{", "run_blocks")
+    runt_b = func_body(s, r"void thread_pool<T>::run_tasks\(\)\s*\{", "run_tasks")
+    start_b = func_body(s, r"void thread_pool<T>::start\(\)\s*\{", "start")
+    resize_b = func_body(s, r"void thread_pool<T>::resize\(.*?\)\s*\{", "resize")
+    shape = [
+        ("pause_waits_then_publishes_then_spins_until_all_counted",
+         has(r"if\s*\(!m_paused\)\s*\{\s*wait\(\);\s*set_tasks\(m_pause_jobs\);\s*run_tasks\(\);\s*m_paused = true;\s*while\s*\(m_paused_count != m_size\)", pause_b)),
+        ("resume_notifies_clears_paused_then_waits",
+         has(r"if\s*\(m_paused\)\s*\{.*m_cv\.notify_all\(\);.*m_paused = false;\s*wait\(\);", b if False else func_body(s, r"void thread_pool<T>::resume\(\)\s*\{", "resume"))),
+        ("run_tasks_starts_resumes_then_publishes",
+         has(r"if\s*\(!m_started\)\s*start\(\);\s*if\s*\(m_paused\)\s*resume\(\);\s*for\s*\(", runt_b)),
+        ("run_blocks_publishes_then_waits", has(r"set_tasks\(p_jobs\);\s*run_tasks\(\);\s*wait\(\);", runb_b)),
+        ("stop_sets_flag_resumes_if_paused_then_joins",
+         has(r"if\s*\(!m_stopped\)\s*\{\s*m_stopped = true;\s*if\s*\(m_paused\)\s*resume\(\);\s*for\s*\(std::thread& worker : m_workers\)\s*worker\.join\(\);", stop_b)),
+        ("worker_tests_stopped_then_flag_runs_job_then_clears",
+         has(r"while\s*\(!m_stopped\.load\(std::memory_order_\w+\)\)\s*\{\s*if\s*\(m_has_job\[i\]\.load\(std::memory_order_\w+\)\)\s*\{\s*\(\*p_jobs\)\[i\]\(\);\s*m_has_job\[i\]\.store\(0,", start_b)),
+        ("resize_stops_then_resets",
+         has(r"if\s*\(size != m_size\)\s*\{\s*m_size = size;\s*stop\(\);\s*m_stopped = false;\s*m_workers\.clear\(\);.*m_has_job = .*init_pause_jobs\(\);\s*m_started = false;", resize_b)),
+    ]
+    out.append("/-- the steps of `thread_pool` that `Fs.Pool4` transcribes, found (true) or not (false) in the source -/")
+    out.append("def poolProtocolShape : List (String × Bool) :=\n  [%s]" % ",\n   ".join('("%s", %s)' % (k, "true" if v else "false") for k, v in shape))
+    info["pool"] = dict(orders=orders, notify_after_lock=under, shape=dict(shape))
     # blocks arithmetic (checked structurally; the arithmetic itself is modelled by hand and tied by correspondence)
     bg = src("flow/basin_graph.hpp")
     m = need(re.search(r"size_type m_max_low_degree = (\d+);", bg), "m_max_low_degree")
